@@ -360,11 +360,13 @@ func (p *RedisProtocol) processArray() ([]interface{}, error) {
 	}
 	ret := make([]interface{}, 0)
 	for i := 0; i < int(l); i++ {
-		if obj, _, err := p.process(); err != nil {
-			ret = append(ret, err)
-		} else {
-			ret = append(ret, obj)
+		obj, _, err := p.process()
+		if err != nil {
+			// The stream ended or is malformed: stop instead of iterating (and appending an
+			// error) for every element the length field declared.
+			return nil, err
 		}
+		ret = append(ret, obj)
 	}
 	return ret, nil
 }
